@@ -157,7 +157,7 @@ def build_unit(tmpl_path, repo_root, canary=False, verif_root=None):
             text = it.text
         log = []
         try:
-            for r in BASIC_RULES:
+            for r in BASIC_RULES + [extra_rules.r2_closure_params]:
                 text = r(text, log)
             for rn in rules:
                 text = getattr(extra_rules, rn)(text, log)
